@@ -26,7 +26,7 @@ def main():
     out = os.path.join(wt, "_out")
     env = {"CARGO_TARGET_DIR": os.path.join(wt, "target"), "CARGO_NET_OFFLINE": "true"}
     meta = json.load(open(os.path.join(out, "meta.json")))
-    demo = meta.get("demo", "demo.rs")
+    demo = meta.get("demo", "demo.rs").split()[0]
     sh("git checkout -- . ", wt)
     is_rs = demo.endswith(".rs")
     crate = "pybigtools" if "pybigtools" in open(os.path.join(out, "RUN.txt")).read() and "-p pybigtools" in open(os.path.join(out, "RUN.txt")).read() else "bigtools"
@@ -49,6 +49,10 @@ def main():
             rc, o = sh("timeout 2400 cargo test --offline -p %s --test demo 2>&1 | tail -30" % crate, wt, env=env)
             ok = "test result: ok" in o and "test result: FAILED" not in o and "error: could not compile" not in o and "error[E" not in o
             return ok, o
+        elif "--run-in-out" in sys.argv:
+            # the demo script locates its helpers relative to itself and expects to live in <checkout>/_out
+            rc, o = sh("bash -o pipefail -c 'timeout 2400 sh _out/%s 2>&1 | tail -30'" % demo, wt, env=env)
+            return rc == 0, o
         else:
             shutil.copyfile(os.path.join(out, demo), os.path.join(wt, demo))
             rc, o = sh("bash -o pipefail -c 'timeout 2400 bash %s 2>&1 | tail -30'" % demo, wt, env=env)
